@@ -489,6 +489,22 @@ func (r *FnRun) appendTyped(st *State, s PSlice, cc *ssa.CallCommon, dst *ssa.Ca
 	if len(r.root.caseSplits) == 0 && !fits.IsConst() {
 		r.root.caseSplits = append(r.root.caseSplits, fits)
 	}
+	ncap := tb.Fresh("apcap!"+r.fn.Name(), BV64)
+	r.addFact(tb.SGe(ncap, newLen))
+	r.addFact(tb.SLt(ncap, tb.BVU(64, 1<<40)))
+	{
+		// allocator semantics (assumed): a block obtained by growing a slice lies outside everything that was allocated
+		// when the function was entered and outside everything allocated so far
+		fa := tb.BoundVar("a", BV64)
+		inBlk := tb.ULt(tb.Sub(fa, np), tb.Mul(ncap, tb.BVI(64, sz)))
+		r.addFact(tb.Forall([]*Term{fa}, tb.Implies(inBlk, tb.Not(tb.Select(r.rootEntry().RA, fa))), []*Term{tb.Select(r.rootEntry().RA, fa)}))
+		if st.RA != r.rootEntry().RA {
+			fb := tb.BoundVar("a", BV64)
+			inB := tb.ULt(tb.Sub(fb, np), tb.Mul(ncap, tb.BVI(64, sz)))
+			r.assume(st, tb.Forall([]*Term{fb}, tb.Implies(inB, tb.Not(tb.Select(st.RA, fb))), []*Term{tb.Select(st.RA, fb)}))
+		}
+		r.root.localRanges = append(r.root.localRanges, [2]*Term{np, tb.Mul(ncap, tb.BVI(64, sz))})
+	}
 	rp := tb.Ite(fits, s.Ptr, np)
 	// on reallocation the old elements are copied: per leaf array a quantified copy fact
 	pre := st.Clone()
@@ -511,8 +527,6 @@ func (r *FnRun) appendTyped(st *State, s PSlice, cc *ssa.CallCommon, dst *ssa.Ca
 	// the new block does not overlap the old one
 	r.assume(st, tb.Implies(tb.Not(fits), tb.Or(tb.ULe(tb.Add(np, tb.Mul(newLen, tb.BVI(64, sz))), s.Ptr), tb.ULe(tb.Add(s.Ptr, tb.Mul(s.Len, tb.BVI(64, sz))), np), tb.Eq(s.Ptr, tb.BVI(64, 0)))))
 	r.objStore(st, tb.Add(rp, tb.Mul(s.Len, tb.BVI(64, sz))), s.Elem, elem)
-	ncap := tb.Fresh("apcap!"+r.fn.Name(), BV64)
-	r.addFact(tb.SGe(ncap, newLen))
 	r.setResult(dst, PSlice{Ptr: rp, Len: newLen, Cap: tb.Ite(fits, s.Cap, ncap), Elem: s.Elem})
 	return st
 }
